@@ -25,6 +25,7 @@ type PinnedSig struct {
 	Pkg, Recv, Name string
 	PNames, PTypes  []string
 	RTypes          []string
+	Sels            []string // the field / method names the body selects (sorted, unique): tells moved bodies apart
 }
 
 var pinnedSigs []PinnedSig
@@ -65,7 +66,53 @@ func SigOf(f *Fn) (PinnedSig, bool) {
 	for i := 0; i < sig.Results().Len(); i++ {
 		s.RTypes = append(s.RTypes, types.TypeString(sig.Results().At(i).Type(), q))
 	}
+	s.Sels = bodySels(f.Decl)
 	return s, true
+}
+
+// bodySels lists the names selected in the body of d (x.Name), sorted and unique, at most 40.
+func bodySels(d *ast.FuncDecl) []string {
+	if d == nil || d.Body == nil {
+		return nil
+	}
+	seen := map[string]bool{}
+	ast.Inspect(d.Body, func(n ast.Node) bool {
+		if sel, ok := n.(*ast.SelectorExpr); ok {
+			seen[sel.Sel.Name] = true
+		}
+		return true
+	})
+	var out []string
+	for k := range seen {
+		out = append(out, k)
+	}
+	sort.Strings(out)
+	if len(out) > 40 {
+		out = out[:40]
+	}
+	return out
+}
+
+// selSimilarity is the Jaccard similarity of two sorted name sets.
+func selSimilarity(a, b []string) float64 {
+	if len(a) == 0 && len(b) == 0 {
+		return 1
+	}
+	in := map[string]bool{}
+	for _, x := range a {
+		in[x] = true
+	}
+	common := 0
+	for _, x := range b {
+		if in[x] {
+			common++
+		}
+	}
+	union := len(a) + len(b) - common
+	if union == 0 {
+		return 0
+	}
+	return float64(common) / float64(union)
 }
 
 func sameStrings(a, b []string) bool {
@@ -646,8 +693,9 @@ func planAnchorMoved(p *Prog, in *inliner, plan *canonPlan) {
 			if pinnedNames[f.Pkg.PkgPath+"."+f.Decl.Name.Name] {
 				continue
 			}
-			if !strings.HasSuffix(strings.ToLower(want.Name), strings.ToLower(f.Decl.Name.Name)) || len(f.Decl.Name.Name) < 6 {
-				continue
+			nameFits := strings.HasSuffix(strings.ToLower(want.Name), strings.ToLower(f.Decl.Name.Name)) && len(f.Decl.Name.Name) >= 6
+			if !nameFits && (len(want.Sels) == 0 || selSimilarity(want.Sels, bodySels(f.Decl)) < 0.8) {
+				continue // neither the name nor what the body reads says it is the anchor
 			}
 			sig := f.Obj.Type().(*types.Signature)
 			if sig.Variadic() || sig.Results().Len() != len(want.RTypes) {
@@ -712,6 +760,22 @@ func planAnchorMoved(p *Prog, in *inliner, plan *canonPlan) {
 			}
 			if okO {
 				cands = append(cands, cand{f, order})
+			}
+		}
+		if len(cands) > 1 && len(want.Sels) > 0 {
+			// several moved functions of that shape: the one whose body reads what the anchor's body read
+			best, bestSim, tie := -1, -1.0, false
+			for i, c := range cands {
+				sim := selSimilarity(want.Sels, bodySels(c.f.Decl))
+				switch {
+				case sim > bestSim:
+					best, bestSim, tie = i, sim, false
+				case sim == bestSim:
+					tie = true
+				}
+			}
+			if best >= 0 && !tie && bestSim >= 0.8 {
+				cands = []cand{cands[best]}
 			}
 		}
 		if len(cands) != 1 {
@@ -922,6 +986,329 @@ func (in *inliner) moveBack(pk *packages.Package, c *Fn, order []int, want Pinne
 		}
 		ce := in.file(call.Pos())
 		ce.edits = append(ce.edits, textEdit{start: in.off(call.Pos()), end: in.off(call.End()), text: want.Name + "(" + strings.Join(args, ", ") + ")"})
+	}
+	return true
+}
+
+// ---- results grouped into a struct -------------------------------------------------------------------------------------
+
+// planResultUngroup: an anchored function that still has its name and parameters but now returns one struct value in the
+// place of several results of the confirmed tree - `(ips []net.IP, family Family, err error)` became `(desiredIPs, error)`
+// with `type desiredIPs struct { ips []net.IP; family Family }` - is given its recorded results back: every `return
+// S{f1: A, f2: B}, rest` becomes `return A, B, rest` (missing fields their zero values), every `r, rest := F(..)` whose r
+// is only read field by field becomes `r_f1, r_f2, rest := F(..)` with r.f1 -> r_f1. Checked by re-type-checking.
+func planResultUngroup(p *Prog, in *inliner, plan *canonPlan) {
+	if len(pinnedSigs) == 0 {
+		return
+	}
+	for _, want := range pinnedSigs {
+		Anchors.mu.Lock()
+		anch := Anchors.pinned[want.Pkg+"."+want.Name]
+		Anchors.mu.Unlock()
+		if !anch || len(want.RTypes) < 2 {
+			continue
+		}
+		pk := p.ByPath[want.Pkg]
+		if pk == nil {
+			continue
+		}
+		var f *Fn
+		for _, c := range p.fnList {
+			if c.Pkg != pk || c.Decl == nil || c.Obj == nil || c.Decl.Name.Name != want.Name || c.Decl.Type.TypeParams != nil ||
+				strings.HasSuffix(p.Fset.Position(c.Decl.Pos()).Filename, "_test.go") {
+				continue
+			}
+			have, ok := SigOf(c)
+			if ok && have.Recv == want.Recv && sameStrings(have.PTypes, want.PTypes) {
+				f = c
+			}
+		}
+		if f == nil || f.Decl.Type.Results == nil {
+			continue
+		}
+		sig := f.Obj.Type().(*types.Signature)
+		nHave := sig.Results().Len()
+		k := len(want.RTypes) - nHave + 1
+		if k < 2 || nHave < 1 {
+			continue
+		}
+		q := types.RelativeTo(pk.Types)
+		st, isSt := sig.Results().At(0).Type().Underlying().(*types.Struct)
+		nt, isNamed := sig.Results().At(0).Type().(*types.Named)
+		if !isSt || !isNamed || nt.Obj().Pkg() != pk.Types || st.NumFields() != k {
+			continue
+		}
+		okT := true
+		for i := 0; i < k; i++ {
+			if types.TypeString(st.Field(i).Type(), q) != want.RTypes[i] || st.Field(i).Embedded() {
+				okT = false
+			}
+		}
+		for i := 1; i < nHave; i++ {
+			if types.TypeString(sig.Results().At(i).Type(), q) != want.RTypes[k+i-1] {
+				okT = false
+			}
+		}
+		// unnamed results only
+		for _, fld := range f.Decl.Type.Results.List {
+			if len(fld.Names) > 0 {
+				okT = false
+			}
+		}
+		if !okT || len(f.Decl.Type.Results.List) != nHave {
+			continue
+		}
+		if in.ungroupResults(pk, f, st, k) {
+			plan.expanded = append(plan.expanded, "results of "+want.Name+" grouped in "+nt.Obj().Name()+" given back as separate results (again)")
+		}
+	}
+}
+
+func (in *inliner) ungroupResults(pk *packages.Package, f *Fn, st *types.Struct, k int) bool {
+	p := in.p
+	info := pk.TypesInfo
+	file := in.fileOfNode(f.Decl)
+	if file == nil {
+		return false
+	}
+	impName := map[string]string{}
+	for _, imp := range file.Imports {
+		path := strings.Trim(imp.Path.Value, "\"")
+		name := path[strings.LastIndexByte(path, '/')+1:]
+		if imp.Name != nil {
+			name = imp.Name.Name
+		} else if ip := p.AllTypes[path]; ip != nil {
+			name = ip.Name()
+		}
+		impName[path] = name
+	}
+	qual := func(tp *types.Package) string {
+		if tp == pk.Types {
+			return ""
+		}
+		if n, ok := impName[tp.Path()]; ok && n != "_" && n != "." {
+			return n
+		}
+		return "\x00"
+	}
+	var ftypes, zeros []string
+	for i := 0; i < k; i++ {
+		ts := types.TypeString(st.Field(i).Type(), qual)
+		z := zeroText(st.Field(i).Type())
+		if bt, isB := st.Field(i).Type().Underlying().(*types.Basic); isB && bt.Info()&types.IsBoolean != 0 {
+			z = "false"
+		}
+		if strings.Contains(ts, "\x00") || z == "" {
+			return false
+		}
+		ftypes, zeros = append(ftypes, ts), append(zeros, z)
+	}
+	type ed struct {
+		a, b token.Pos
+		t    string
+	}
+	var eds []ed
+	// the signature
+	r0 := f.Decl.Type.Results.List[0].Type
+	eds = append(eds, ed{r0.Pos(), r0.End(), strings.Join(ftypes, ", ")})
+	if !f.Decl.Type.Results.Opening.IsValid() {
+		// a single unparenthesised result: add the parentheses
+		eds[0] = ed{r0.Pos(), r0.End(), "(" + strings.Join(ftypes, ", ") + ")"}
+	}
+	// the returns
+	okR := true
+	var visit func(n ast.Node) bool
+	visit = func(n ast.Node) bool {
+		switch x := n.(type) {
+		case *ast.FuncLit:
+			return false
+		case *ast.ReturnStmt:
+			if len(x.Results) == 0 {
+				okR = false
+				return false
+			}
+			if len(x.Results) == 1 && f.Obj.Type().(*types.Signature).Results().Len() > 1 {
+				okR = false // return g() forwarding a tuple
+				return false
+			}
+			r := ast.Unparen(x.Results[0])
+			vals := make([]string, k)
+			switch v := r.(type) {
+			case *ast.CompositeLit:
+				copy(vals, zeros)
+				for i, el := range v.Elts {
+					if kv, isKV := el.(*ast.KeyValueExpr); isKV {
+						kid, isId := kv.Key.(*ast.Ident)
+						if !isId {
+							okR = false
+							return false
+						}
+						found := false
+						for j := 0; j < k; j++ {
+							if st.Field(j).Name() == kid.Name {
+								vals[j] = in.text(kv.Value.Pos(), kv.Value.End())
+								found = true
+							}
+						}
+						if !found {
+							okR = false
+						}
+					} else if i < k {
+						vals[i] = in.text(el.Pos(), el.End())
+					}
+				}
+			default:
+				if !isPlainOperand(r) {
+					okR = false
+					return false
+				}
+				rt := in.text(r.Pos(), r.End())
+				for j := 0; j < k; j++ {
+					vals[j] = rt + "." + st.Field(j).Name()
+				}
+			}
+			eds = append(eds, ed{x.Results[0].Pos(), x.Results[0].End(), strings.Join(vals, ", ")})
+			return false
+		}
+		return true
+	}
+	ast.Inspect(f.Decl.Body, visit)
+	if !okR {
+		return false
+	}
+	// the call sites
+	for _, pkg2 := range p.Pkgs {
+		for _, file2 := range pkg2.Syntax {
+			bad := false
+			ast.Inspect(file2, func(n ast.Node) bool {
+				id, ok := n.(*ast.Ident)
+				if !ok || pkg2.TypesInfo.Uses[id] != types.Object(f.Obj) {
+					return true
+				}
+				if pkg2 != pk || strings.HasSuffix(p.Fset.Position(file2.Pos()).Filename, "_test.go") {
+					if pkg2 != pk {
+						bad = true
+					}
+					return true
+				}
+				var call *ast.CallExpr
+				switch par := p.parents[id].(type) {
+				case *ast.CallExpr:
+					if par.Fun == ast.Expr(id) {
+						call = par
+					}
+				case *ast.SelectorExpr:
+					if c2, isC := p.parents[par].(*ast.CallExpr); isC && c2.Fun == ast.Expr(par) && par.Sel == id {
+						call = c2
+					}
+				}
+				if call == nil {
+					bad = true
+					return true
+				}
+				as, isAs := p.parents[call].(*ast.AssignStmt)
+				if !isAs || len(as.Rhs) != 1 || as.Rhs[0] != ast.Expr(call) || len(as.Lhs) < 1 {
+					bad = true
+					return true
+				}
+				l0, isId := as.Lhs[0].(*ast.Ident)
+				if !isId {
+					bad = true
+					return true
+				}
+				if l0.Name == "_" {
+					blanks := make([]string, k)
+					for j := range blanks {
+						blanks[j] = "_"
+					}
+					eds = append(eds, ed{l0.Pos(), l0.End(), strings.Join(blanks, ", ")})
+					return true
+				}
+				robj := info.Defs[l0]
+				if robj == nil {
+					robj = info.Uses[l0]
+				}
+				if robj == nil {
+					bad = true
+					return true
+				}
+				// every other use of r: a field read
+				used := make([]bool, k)
+				scopeFn := ast.Node(file2)
+				ast.Inspect(scopeFn, func(m ast.Node) bool {
+					uid, ok := m.(*ast.Ident)
+					if !ok || uid == l0 || (info.Uses[uid] != robj && info.Defs[uid] != robj) {
+						return true
+					}
+					sel, isSel := p.parents[uid].(*ast.SelectorExpr)
+					if !isSel || sel.X != ast.Expr(uid) {
+						bad = true
+						return true
+					}
+					fi := -1
+					for j := 0; j < k; j++ {
+						if st.Field(j).Name() == sel.Sel.Name {
+							fi = j
+						}
+					}
+					if fi < 0 {
+						bad = true
+						return true
+					}
+					switch pp := p.parents[sel].(type) {
+					case *ast.AssignStmt:
+						for _, l := range pp.Lhs {
+							if l == ast.Expr(sel) {
+								bad = true
+							}
+						}
+					case *ast.UnaryExpr:
+						if pp.Op == token.AND {
+							bad = true
+						}
+					case *ast.IncDecStmt:
+						bad = true
+					}
+					used[fi] = true
+					eds = append(eds, ed{sel.Pos(), sel.End(), l0.Name + "_" + sel.Sel.Name})
+					return true
+				})
+				names := make([]string, k)
+				anyNew := false
+				for j := 0; j < k; j++ {
+					if used[j] {
+						names[j] = l0.Name + "_" + st.Field(j).Name()
+						anyNew = true
+						if sc := pk.Types.Scope().Innermost(as.Pos()); sc != nil {
+							if _, o := sc.LookupParent(names[j], token.NoPos); o != nil {
+								bad = true
+							}
+						}
+					} else {
+						names[j] = "_"
+					}
+				}
+				eds = append(eds, ed{l0.Pos(), l0.End(), strings.Join(names, ", ")})
+				if as.Tok == token.DEFINE && !anyNew {
+					for _, l := range as.Lhs[1:] {
+						if lid, isL := l.(*ast.Ident); isL && lid.Name != "_" && info.Defs[lid] != nil {
+							anyNew = true
+						}
+					}
+					if !anyNew {
+						eds = append(eds, ed{as.TokPos, as.TokPos + 2, "="})
+					}
+				}
+				return true
+			})
+			if bad {
+				return false
+			}
+		}
+	}
+	for _, e := range eds {
+		fe := in.file(e.a)
+		fe.edits = append(fe.edits, textEdit{start: in.off(e.a), end: in.off(e.b), text: e.t})
 	}
 	return true
 }
